@@ -162,6 +162,8 @@ class ClassFolder:
             if isinstance(node, ast.Call) and not node.args and not node.keywords and isinstance(node.func, ast.Attribute) and isinstance(node.func.value, ast.Name) \
                and node.func.value.id in self.mod.imports and node.func.attr[:1].isupper():
                 mutable = True          # NAME = module.Class(): one instance per session
+            if isinstance(node, ast.Call) and isinstance(node.func, ast.Attribute) and isinstance(node.func.value, ast.Name) and node.func.value.id == 'textwrap' and node.func.attr == 'TextWrapper':
+                mutable = True          # WRAPPER = textwrap.TextWrapper(...): its width attribute is assigned before every use
             if mutable:
                 self.lazy_singletons.add(name)
                 self.override_names.add(name)
@@ -180,6 +182,7 @@ class ClassFolder:
         if modname == self.modname:
             return self
         o = ClassFolder(self.repo, modname, self.extra_hook)
+        self.override_names |= o.override_names          # the sibling's own module-level singletons stay overridden names
         o.files, o.modglobals, o.override_names, o.depth = self.files, self.modglobals, self.override_names, self.depth
         return o
 
